@@ -282,9 +282,16 @@ structure Meta where
 structure MetaCache where
   metadata : Option Meta
   expiresAt : Time
-/-- `*http.Client`, `*Logger`: passed along, never inspected by the translated functions -/
+/-- jwk.go `JWKCache`: the cached key set (nil when there is none), the instant up to which it is served without asking the provider,
+    and the configured lifetime (0 = one hour) -/
+structure JwkCache where
+  jwks : Option JWKSet
+  expiresAt : Time
+  CacheLifetime : Duration
+/-- `*http.Client`, `*Logger`, `context.Context`: passed along, never inspected by the translated functions -/
 structure HTTPClient where
 structure Logger where
+structure Ctx where
 
 structure DOps (σ : Type) where
   /-- `time.Now()` -/
@@ -293,6 +300,8 @@ structure DOps (σ : Type) where
   sleep : σ → Duration → σ
   /-- `fetchMetadata(url, client)`: one HTTP attempt at the discovery endpoint -/
   fetchMetadata : σ → Str → (Option Meta × Err) × σ
+  /-- `fetchJWKS(ctx, url, client)`: one HTTP request at the key-set endpoint -/
+  fetchJWKS : σ → Str → (Option JWKSet × Err) × σ
 
 /-- `time.Duration(math.Pow(2, float64(n)))` for `n ≥ 0` -/
 def pow2 (n : Int) : Duration := ((2 ^ n.toNat : Nat) : Int)
